@@ -9,7 +9,7 @@ seed="${VERIF_SEED:-1}"
 # the check reads the seed as i128 -> u64; keep plain non-negative seeds identical
 case "$seed" in ''|*[!0-9]*) seed=$(python3 -c "import sys; print(int(sys.argv[1]) % (1<<64))" "$seed");; esac
 out="$HERE/target/c30-corpus-$seed-$tier.json"
-count=1500; [ "$tier" = thorough ] && count=60000
+count=1500; [ "$tier" = thorough ] && count=20000
 mkdir -p "$HERE/target"
 if [ ! -s "$out" ]; then
   python3 -W ignore "$HERE/py/gen_pw_corpus.py" "$seed" "$count" "$out.tmp"
